@@ -25,6 +25,9 @@ def run(ctx):
     common.init_table(ctx, "PageHinkley", {"_max": 0, "_min": 0, "_sum": 0, "_mean": 0})
     for n in ("CUSUM", "PageHinkley"):
         c14.univariate(ctx, n)
+    # re-estimation after a drift: mean and deviation of the last burn_in observations *before* this call's observation joins the stream
+    from . import c02
+    c02.cusum_reestimate(ctx)
 
 
 def appends(tr, attr):
